@@ -161,6 +161,14 @@ Fixpoint map2r {A B C} (f : A -> B -> result C) (l1 : list A) (l2 : list B) : re
   | _, _ => Err EOther
   end.
 
+Fixpoint mapr {A B} (f : A -> result B) (l : list A) : result (list B) :=
+  match l with
+  | [] => Ok []
+  | x :: xs => match f x with
+               | Err e => Err e
+               | Ok y => match mapr f xs with Ok ys => Ok (y :: ys) | Err e => Err e end
+               end
+  end.
 Definition sels_shape (sels : list (Z * Z * bool)) : list Z :=
   map (fun '(_, l, _) => l) (filter (fun '(_, _, d) => negb d) sels).
 
